@@ -99,11 +99,45 @@ func (c *CCtx) heapsReachable(t types.Type, seen map[string]bool, out *[]string)
 	}
 }
 
-// deepTerm: uninterpreted function of the value and of every heap reachable from its type.
+// deepTerm: the deep value of v (the value together with everything it reaches), as a term of sort Deep.
+// Basic values are themselves, a []byte is its bytes, a struct is the tuple of the deep values of its fields; everything
+// else (other slices, pointers, interfaces, maps) is an uninterpreted function of the value and of the heaps it can reach.
 func (c *CCtx) deepTerm(v CVal) string {
+	return c.deepOfType(v.T, v.GoT, 0)
+}
+
+func (c *CCtx) deepOfType(term string, t types.Type, depth int) string {
+	switch u := t.Underlying().(type) {
+	case *types.Basic:
+		srt := c.e.sorts.SortOf(t)
+		fn := "deepv_" + sanitize(srt)
+		c.e.declOnce(fmt.Sprintf("(declare-fun %s (%s) Deep)", fn, srt))
+		return fmt.Sprintf("(%s %s)", fn, term)
+	case *types.Slice:
+		if t.String() == "encoding/asn1.ObjectIdentifier" {
+			c.e.declOnce("(declare-fun deepOid (OidV) Deep)")
+			return fmt.Sprintf("(deepOid (oidv (select %s (base %s)) (off %s) (len %s)))", c.heap(c.e.sorts.HeapSlice("Int")), term, term, term)
+		}
+		if c.e.sorts.SortOf(u.Elem()) == "(_ BitVec 8)" {
+			c.e.declOnce("(declare-fun deepBytes (Bytes) Deep)")
+			return fmt.Sprintf("(deepBytes (bytesv (select %s (base %s)) (off %s) (len %s)))", c.heap(c.e.sorts.HeapSlice("(_ BitVec 8)")), term, term, term)
+		}
+	case *types.Struct:
+		if n, isN := t.(*types.Named); !(isN && c.e.sorts.opaque(n, u)) && depth < 6 && u.NumFields() > 0 {
+			srt := c.e.sorts.SortOf(t)
+			var ds, sorts []string
+			for i := 0; i < u.NumFields(); i++ {
+				ds = append(ds, c.deepOfType(c.e.project(term, t, []int{i}), u.Field(i).Type(), depth+1))
+				sorts = append(sorts, "Deep")
+			}
+			fn := "deepS_" + sanitize(srt)
+			c.e.declOnce(fmt.Sprintf("(declare-fun %s (%s) Deep)", fn, strings.Join(sorts, " ")))
+			return fmt.Sprintf("(%s %s)", fn, strings.Join(ds, " "))
+		}
+	}
 	var hs []string
-	c.heapsReachable(v.GoT, map[string]bool{}, &hs)
-	srt := c.e.sorts.SortOf(v.GoT)
+	c.heapsReachable(t, map[string]bool{}, &hs)
+	srt := c.e.sorts.SortOf(t)
 	fn := "deep_" + sanitize(srt)
 	var sorts, args []string
 	for _, h := range hs {
@@ -111,7 +145,7 @@ func (c *CCtx) deepTerm(v CVal) string {
 		args = append(args, c.heap(h))
 	}
 	c.e.declOnce(fmt.Sprintf("(declare-fun %s (%s %s) Deep)", fn, srt, strings.Join(sorts, " ")))
-	return fmt.Sprintf("(%s %s %s)", fn, v.T, strings.Join(args, " "))
+	return fmt.Sprintf("(%s %s %s)", fn, term, strings.Join(args, " "))
 }
 
 func (c *CCtx) val(t string, gt types.Type) CVal {
